@@ -1641,6 +1641,16 @@ package query
 //@   ensures [executed-flow-propagates] is(stmt, parser.Execute) && result1 == nil && nestedRuns > old(nestedRuns) ==> result0 == lastExecFlow
 //@   modifies *
 //@   modifies nestedRuns, lastExecFlow
+// C01 / C05: a data-changing statement marks a table as changed (to be written at COMMIT, restored at ROLLBACK) only when it
+// succeeded and actually affected records of that table: a statement that matched nothing leaves the file alone.
+//@ func (*Processor).ExecuteStatement!dml
+//@   property C01 C05
+//@   abstract *
+//@   assert after call (*query.UncommittedViews).SetForUpdatedView#1: [insert-marks-the-table-only-when-rows-were-inserted] e@4 == nil && 0 < cnt@1
+//@   assert after call (*query.UncommittedViews).SetForUpdatedView#2: [update-marks-only-tables-with-updated-rows] e@5 == nil && 0 < cnts@1[i@1]
+//@   assert after call (*query.UncommittedViews).SetForUpdatedView#3: [replace-marks-the-table-only-when-rows-were-affected] e@6 == nil && 0 < cnt@2
+//@   assert after call (*query.UncommittedViews).SetForUpdatedView#4: [delete-marks-only-tables-with-deleted-rows] e@7 == nil && 0 < cnts@2[i@2]
+//@   modifies *
 //@ func (*Processor).execute!loop
 //@   property C15
 //@   ensures [every-statement-is-run-at-most-once-in-order] stmtsRun - old(stmtsRun) <= len(statements)
